@@ -54,7 +54,7 @@ class C13Machine(RuleBasedStateMachine):
 
     @initialize(data=st.data())
     def setup(self, data):
-        prof = gen.Profile(max_types=4, max_depth=3, real_defaults=False, components_of_rate=40)
+        prof = gen.Profile(max_types=4, max_depth=3, real_defaults=False, components_of_rate=40, components_of_tagged=True)
         spec = data.draw(gen.specs(prof))
         self.spec = spec
         self.text = spec.text()
@@ -216,9 +216,79 @@ class C13(Check):
     assumptions = ['behaviour is observed on 2 generated values for each of up to 3 types plus one truncated decode each']
 
     def shards(self, tier):
-        return [{'i': i} for i in range(16)]
+        return [{'i': i} for i in range(16)] + [{'i': 16 + j, 'directed': j} for j in range(4)]
+
+    def directed_specs(self):
+        """module sets by construction whose dictionaries are sensitive to the order and history of processing: modules
+        with different tag defaults written in non-alphabetical order with COMPONENTS OF a type of the other module whose
+        components carry tags without IMPLICIT/EXPLICIT; DEFAULTs of every converted kind, also through references"""
+        from ..asn import Ty, Member, Group, Module, Spec, Rng, Tag
+        out = []
+        for d1, d2 in (('IMPLICIT', 'EXPLICIT'), ('EXPLICIT', 'IMPLICIT'), ('AUTOMATIC', '')):
+            ma = Module('Alpha', d1)
+            ma.types = [('A', Ty('SEQUENCE', root=[Member('a', Ty('INTEGER', tag=Tag('CONTEXT', 0, None))),
+                                                   Member('b', Ty('BOOLEAN', tag=Tag('CONTEXT', 1, None)))]))]
+            if d1 == 'AUTOMATIC':
+                for mem in ma.types[0][1].root:
+                    mem.ty.tag = None
+            mz = Module('Zeta', d2)
+            co = Ty('SEQUENCE', root=[Member('a', Ty('INTEGER', tag=Tag('CONTEXT', 0, None))),
+                                      Member('b', Ty('BOOLEAN', tag=Tag('CONTEXT', 1, None))),
+                                      Member('extra-co', Ty('BOOLEAN', tag=Tag('CONTEXT', 2, None)))])
+            if d1 == 'AUTOMATIC':
+                for mem in co.root:
+                    mem.ty.tag = None
+            co.raw = 'SEQUENCE {\n  COMPONENTS OF A,\n  extra-co %sBOOLEAN\n}' % ('' if d1 == 'AUTOMATIC' else '[2] ')
+            co.raw_refs = ['A']
+            mz.types = [('CO', co)]
+            mz.imports = {'Alpha': ['A']}
+            spec = Spec([mz, ma])       # Zeta first in the text, Alpha first alphabetically
+            out.append((spec, [('Zeta', 'CO', {'a': 5, 'b': True, 'extra-co': False}),
+                               ('Alpha', 'A', {'a': -1, 'b': False})]))
+        m = Module('M', 'AUTOMATIC')
+        m.types = [
+            ('E', Ty('ENUMERATED', enum_root=[('x', 0, False), ('y', 1, False)])),
+            ('F', Ty('BOOLEAN')),
+            ('N', Ty('NumericString')),
+            ('S', Ty('SEQUENCE', root=[
+                Member('e', Ty('REF', ref='E'), has_default=True, default='y', default_txt='y'),
+                Member('f', Ty('REF', ref='F'), has_default=True, default=True, default_txt='TRUE'),
+                Member('n', Ty('REF', ref='N'), has_default=True, default='12', default_txt='"12"'),
+                Member('b', Ty('BIT STRING'), has_default=True, default=(b'\x40', 4), default_txt="'0100'B"),
+                Member('k', Ty('INTEGER'))],
+                ext=[Group([Member('g', Ty('OCTET STRING'), has_default=True, default=b'\x00', default_txt="'00'H"),
+                            Member('h', Ty('ENUMERATED', enum_root=[('p', 0, False), ('q', 1, False)]),
+                                   has_default=True, default='q', default_txt='q')])]))]
+        out.append((Spec([m]), [('M', 'S', {'k': 1}), ('M', 'S', {'e': 'x', 'f': False, 'n': '7', 'b': (b'\x80', 1), 'k': 2,
+                                                                 'g': b'\x01', 'h': 'p'})]))
+        return out
+
+    def directed(self, shard, rec):
+        import itertools
+        ops = [['pformat-eval'], ['deepcopy'], ['pre_process_dict'], ['compile', 'ber', False], ['compile', 'der', True],
+               ['compile', 'uper', False], ['compile', 'jer', True]]
+        for k, (spec, probes) in enumerate(self.directed_specs()):
+            if k != shard['directed']:
+                continue
+            pj = [[m, n, jsonio.enc(v)] for m, n, v in probes]
+            sj = jsonio.spec_enc(spec)
+            for n in (1, 2, 3):
+                for hist in itertools.product(ops, repeat=n):
+                    if not any(h[0] == 'compile' for h in hist):
+                        continue
+                    for deferred in ((False, True) if n < 3 else (True,)):
+                        case = {'spec': sj, 'text': spec.texts(), 'history': [list(h) for h in hist],
+                                'deferred': deferred, 'probes': pj}
+                        rec.cases += 1
+                        rec.ev()
+                        self.replay(case, rec)
+            rec.cls('directed-specs')
 
     def run_shard(self, shard, tier, seed, rec):
+        if 'directed' in shard:
+            if not shard.get('_shrink'):
+                self.directed(shard, rec)
+            return
         scale = float(os.environ.get('ASN1V_SCALE', '1'))
         n = max(1, int((20 if tier == 'quick' else 600) * scale))
         machine_run(C13Machine, seed, n, 10, rec, shrink=shard.get('_shrink', False),
